@@ -79,7 +79,11 @@ def check_structure(w, rec=None):
                 'robot PR #%d (%s -> %s) names PR#%d as parent, which is '
                 'not a pull request from %s' % (c['id'], c['src'], c['dst'],
                                                 parent_id, src), {})
-        if target != c['dst'] or title != parent[0]['title']:
+        # "titled after it": the title the parent had when the child was
+        # made; nothing says that the children follow a later edit
+        titles = [parent[0]['title']] + list(
+            getattr(w, 'old_titles', {}).get(parent_id, []))
+        if target != c['dst'] or title not in titles:
             raise Violation(
                 'C19', 'C19:integration-pr-title',
                 'robot PR #%d to %s is titled %r (parent title %r)' % (
@@ -178,6 +182,20 @@ class C19(E1Prop):
             self.nfaulted += 1
         if getattr(self, 'script', None):
             return self.script.pop(0)
+        if step >= 3 and rng.random() < 0.07:
+            p = self.gen.pick_pr(w)
+            if p is not None:
+                # the author edits the title of a PR whose children exist;
+                # later events must find the same children again
+                self.script = [{'op': 'eval', 'p': p, 'dt': 1},
+                               {'op': 'retitle', 'p': p, 'dt': 5,
+                                'title': 'retitled %d' % step},
+                               {'op': 'deliver_all', 'dt': 5},
+                               {'op': 'eval', 'p': p, 'dt': 1}]
+                if rng.random() < 0.4:
+                    self.script += [{'op': 'decline', 'p': p, 'dt': 5},
+                                    {'op': 'deliver_all', 'dt': 5}]
+                return self.script.pop(0)
         if step >= 4 and rng.random() < 0.08:
             p = self.gen.pick_pr(w)
             if p is not None:
